@@ -7,7 +7,7 @@
    hsids = schedulings pending in the heap, psids = popped and called by run(), removed = dropped by removeEvent. *)
 From Coq Require Import List NArith ZArith Permutation.
 Import ListNotations.
-Require Import Base.Wire Base.PyStr C18.Model C18.Lemmas C18.Theorems.
+Require Import Base.Wire Base.PyStr C18.Model C18.Lemmas C18.Theorems C18.Periodic C18.Trace.
 
 (* exactly once / removed never run: at every point of every history each scheduling is in exactly one of
    pending, executed, removed (so: never executed twice, never executed after removal, never lost). *)
@@ -116,3 +116,55 @@ Theorem C18_periodic_stops :
   wrapper_call rb u p nm av cnt s = call_user rb u av s.
 Proof. exact wrapper_stops. Qed.
 Print Assumptions C18_periodic_stops.
+
+(* ===== periodic events over whole histories (Periodic.v).  nc r s = number of invocations of the user function
+   registered as number r (u_reg; numbers are handed out by nreg at every addEvent/addPeriodicEvent call);
+   cap n = max n 1: the code decrements the count before testing count > 0, so count <= 0 behaves like 1. ===== *)
+
+(* a periodic event registered with count n at any reachable state, followed by ANY continuation (runs, removals,
+   reschedules, re-entrant events, raising callbacks): it has fired at most cap n times; and as long as it is held in
+   self.events it is the wrapper with some remaining count c, and fired + cap c = cap n (so it fires exactly cap n
+   times unless it is removed or its name is taken while it runs). *)
+Theorem C18_periodic_count :
+  forall fuel o ops tag ar body p nm nowf av n fuel2 ops2,
+  let s := reach fuel o ops in
+  let r := nreg s in
+  let s2 := run_ops fuel2 ops2 (fst (exec (APer tag ar body p nm nowf av (Some n)) s)) in
+  (nc r s2 <= cap n)%Z /\
+  forall k f, In (k, f) (events s2) -> reg_of f = r ->
+    exists u p' nm' av' c, f = Wrap u p' nm' av' (Some c) /\ (nc r s2 + cap c = cap n)%Z.
+Proof. exact periodic_count. Qed.
+Print Assumptions C18_periodic_count.
+
+(* exactly one successor: at any time at most one binding of self.events holds a given registration *)
+Theorem C18_one_holder :
+  forall fuel o ops, NoDup (eregs (reach fuel o ops)).
+Proof. intros fuel o ops. exact (proj1 (proj2 (Rinv_reach fuel o ops))). Qed.
+Print Assumptions C18_one_holder.
+
+(* a registration that nobody holds (it finished, or it was removed) is never invoked again *)
+Theorem C18_absent_never_again :
+  forall r s fuel ops, absent r s -> absent r (run_ops fuel ops s) /\ nc r (run_ops fuel ops s) = nc r s.
+Proof. exact absent_forever. Qed.
+Print Assumptions C18_absent_never_again.
+
+(* removal by name stops an event (periodic or one-shot) for good *)
+Theorem C18_remove_stops :
+  forall fuel o ops n f fuel2 ops2, let s := reach fuel o ops in
+  snd (removeEvent n s) = Ok f ->
+  let s' := fst (removeEvent n s) in
+  nc (reg_of f) (run_ops fuel2 ops2 s') = nc (reg_of f) s' /\ ~ In (reg_of f) (eregs (run_ops fuel2 ops2 s')).
+Proof. intros fuel o ops n f fuel2 ops2 s. apply remove_stops. apply Rinv_reach. Qed.
+Print Assumptions C18_remove_stops.
+
+(* ===== trace level (Trace.v): every history of addEvent / removeEvent / rescheduleEvent / clock advance / run over
+   one-shot events whose functions leave the scheduler and the clock alone (they may raise) refines the abstract
+   specification [atrace]: a bag of pending entries; add = insert unless the name is pending; remove = delete by name;
+   reschedule = same name and arguments at the new time; run = exactly the due entries are executed, each once, in
+   non-decreasing order of due time, the others stay ([a_run]; order among equal times is open, as in heapq).
+   TC: the invocation log is the executed list: one call per executed entry, at that clock, with its arguments. ===== *)
+Theorem C18_trace_refines :
+  forall fuel o ops, forallb simple ops = true -> fuelout (reach fuel o ops) = false ->
+  atrace ops abs0 (abs (reach fuel o ops)) /\ TC (reach fuel o ops).
+Proof. exact trace_refines. Qed.
+Print Assumptions C18_trace_refines.
